@@ -1077,6 +1077,32 @@ class FuncAnalysis:
         self.ev(f)
         return wrap(join(args))
 
+    def _denotes_field_module(self, node):
+        """is `node` a value taken from Field.FIELD_MODULE: the expression
+        mentions the table, or it is a local name assigned from such an
+        expression in this function (`mod = gfapy.Field.FIELD_MODULE.get(dt)`)"""
+        def mentions(e):
+            return any((isinstance(n, ast.Attribute) and
+                        n.attr == "FIELD_MODULE") or
+                       (isinstance(n, ast.Name) and n.id == "FIELD_MODULE")
+                       for n in ast.walk(e))
+        if mentions(node):
+            return True
+        if not isinstance(node, ast.Name):
+            return False
+        cache = self.__dict__.setdefault("_fm_locals", None)
+        if cache is None:
+            cache = set()
+            for n in walk_no_nested(self.func.node):
+                if isinstance(n, ast.Assign) and mentions(n.value):
+                    for t in n.targets:
+                        if isinstance(t, ast.Name):
+                            cache.add(t.id)
+                elif isinstance(n, ast.NamedExpr) and mentions(n.value):
+                    cache.add(n.target.id)
+            self._fm_locals = cache
+        return node.id in cache
+
     def construct_self_class(self, args, kwargs):
         """self.__class__(...), type(self)(...), or a local bound to either:
         a new object of the receiver's class"""
@@ -1364,8 +1390,8 @@ class FuncAnalysis:
                     return EMPTY
                 return EMPTY
         # `mod.decode(...)` where mod comes from Field.FIELD_MODULE
-        if name in prog.field_module_funcs and isinstance(f.value, ast.Name) \
-                and f.value.id in ("mod",):
+        if name in prog.field_module_funcs and \
+                self._denotes_field_module(f.value):
             out = EMPTY
             cands = prog.field_module_funcs[name]
             for c in cands:
